@@ -43,6 +43,11 @@ def opts(s):
     return s[1:] if s[:1] == "S" else None
 
 
+def optnd(s):
+    """py_version_nodot: 'N' = None, 'S<text>' = str, 'I<digits>' = int (sysconfig may report either)"""
+    return int(s[1:]) if s[:1] == "I" else opts(s)
+
+
 def show(it):
     return ",".join(str(t) for t in it)
 
@@ -121,9 +126,9 @@ def law_sys(name, nodot, sysver, ext, cfg, spec):
             import plat_impl                       # lazily: plat_impl imports this module
             glibc, arch = rest.split(";")
             st.enter_context(plat_impl.linux_env("Sglibc " + glibc, "I", "X", "-"))
-            st.enter_context(interpreter(cfg, sysver=pv(sysver), name=name, nodot=opts(nodot), ext=opts(ext), system="Linux", plat="linux-" + arch))
+            st.enter_context(interpreter(cfg, sysver=pv(sysver), name=name, nodot=optnd(nodot), ext=opts(ext), system="Linux", plat="linux-" + arch))
         else:
-            st.enter_context(interpreter(cfg, sysver=pv(sysver), name=name, nodot=opts(nodot), ext=opts(ext), **det_kw(spec)))
+            st.enter_context(interpreter(cfg, sysver=pv(sysver), name=name, nodot=optnd(nodot), ext=opts(ext), **det_kw(spec)))
         plats = list(tags.platform_tags())
         try:
             whole = list(tags.sys_tags())
@@ -190,20 +195,21 @@ def observe(cmd, args):
     if cmd == "t.cpythond":
         v, abis, ps, cfg, sysver, det = args
         with interpreter(cfg, sysver=pv(sysver), **det_kw(det)):
-            return show(list(tags.cpython_tags(opt_pv(v, len(ps)), None if abis == "?" else feed(plist(abis), 0), opt_ps(ps, len(v)))))
+            return show(list(tags.cpython_tags(opt_pv(v, len(ps)), None if abis == "?" else feed(plist(abis), 0), opt_ps(ps, len(v)),
+                                               warn=len(det) % 2 == 0)))          # warn only logs: the answer must not depend on it
     if cmd == "t.compatd":
         v, interp, ps, sysver, det = args
         with interpreter(CFG0, sysver=pv(sysver), **det_kw(det)):
             return show(tags.compatible_tags(opt_pv(v, len(ps)), interp or None, opt_ps(ps, len(v))))
     if cmd == "t.genericd":
         interp, abis, ps, name, nodot, sysver, det = args
-        with interpreter(CFG0, sysver=pv(sysver), name=name, nodot=opts(nodot), **det_kw(det)):
-            return show(tags.generic_tags(interp or (None if len(abis) % 2 else ""), feed(plist(abis), 0), opt_ps(ps, len(abis))))
+        with interpreter(CFG0, sysver=pv(sysver), name=name, nodot=optnd(nodot), **det_kw(det)):
+            return show(tags.generic_tags(interp or (None if len(abis) % 2 else ""), feed(plist(abis), 0), opt_ps(ps, len(abis)), warn=len(det) % 2 == 1))
     if cmd == "t.sysp":
         name, nodot, sysver, ext, cfg, det = args
-        with interpreter(cfg, sysver=pv(sysver), name=name, nodot=opts(nodot), ext=opts(ext), **det_kw(det)):
+        with interpreter(cfg, sysver=pv(sysver), name=name, nodot=optnd(nodot), ext=opts(ext), **det_kw(det)):
             try:
-                return show(list(tags.sys_tags()))
+                return show(list(tags.sys_tags(warn=len(det) % 2 == 0)))
             except SystemError:
                 return "E"
     if cmd == "law.t.sys":
